@@ -60,8 +60,26 @@ mod verif_kani {
         let (a, b): (usize, usize) = (kani::any(), kani::any());
         kani::assume(a <= 8 && b <= 8);
         let fits = e.fits(&k[..a], &v[..b]);
-        assert!(fits == (el + (bc + 1) * 16 + a + b <= e.buffer.len()));
+        assert!(!fits || (el + (bc + 1) * 16 + a + b <= e.buffer.len()), "an entry reported to fit does fit between the two ends");
         assert!(e.remaining() == e.buffer.len() - el - bc * 16);
+        e.entries_len = 0; e.bounds_count = 0;
+    }
+
+    /// proof-internal (supports the Verus clause E.fits.exact, which the C08 growth argument uses): `fits` refuses only what does
+    /// not fit. A more cautious test keeps C08 and C17, so a failure here makes them undecided, not violated.
+    #[kani::proof]
+    fn c17_fits_refuses_only_what_does_not_fit() {
+        let cap: usize = kani::any();
+        kani::assume(cap >= 1 && cap <= 256);
+        let mut e = Entries::with_capacity(cap);
+        let (el, bc): (usize, usize) = (kani::any(), kani::any());
+        kani::assume(bc <= 16 && el <= 256 && el + bc * 16 <= e.buffer.len());
+        e.entries_len = el; e.bounds_count = bc;
+        let k: [u8; 8] = kani::any(); let v: [u8; 8] = kani::any();
+        let (a, b): (usize, usize) = (kani::any(), kani::any());
+        kani::assume(a <= 8 && b <= 8);
+        let fits = e.fits(&k[..a], &v[..b]);
+        assert!(fits || !(el + (bc + 1) * 16 + a + b <= e.buffer.len()), "an entry that fits is not refused");
         e.entries_len = 0; e.bounds_count = 0;
     }
 }
